@@ -178,6 +178,13 @@ fn hostile(rng: &mut SRng, t: &Truth, mode: &str, ty: &RepairRequestType, histor
                         out.push(ser(&RepairResponse::LastSliceRoot(ty.clone(), slice_index(idx), root_of(&t.blk.roots[t.last()]), proof_of(&t.rt, t.last()))));
                     }
                 }
+                // exactly one past the width covered by the proof (2^h), with the material of slice 0 and of the last slice
+                let w = 1usize << h;
+                if w < 1024 {
+                    for src in [0, t.last()] {
+                        out.push(ser(&RepairResponse::LastSliceRoot(ty.clone(), slice_index(w), root_of(&t.blk.roots[src]), proof_of(&t.rt, src))));
+                    }
+                }
             }
         }
         "earlier-slice-claimed-last" => {
@@ -257,7 +264,7 @@ async fn requester_run(ctx: &mut Ctx, rng: &mut SRng, directed: Option<&'static 
     let ep = make_epoch(rng, &stakes, "c14");
     let slot = rng.random_range(1..200u64);
     let leader = ((slot / 4) % n as u64) as usize;
-    let nslices = if directed.is_some() { rng.random_range(2..=4) } else { *[1usize, 1, 2, 3, 5].choose(rng).unwrap() };
+    let nslices = if directed.is_some() { rng.random_range(1..=4) } else { *[1usize, 1, 2, 3, 5].choose(rng).unwrap() };
     let sw = rng.random_bool(0.2);
     let specs: Vec<SliceSpec> = good_specs(rng, slot, nslices, sw);
     let truth = Arc::new(Truth::new(build_block(&ep.sks[leader], slot, &specs), &ep.sks[leader]));
@@ -299,16 +306,29 @@ async fn requester_run(ctx: &mut Ctx, rng: &mut SRng, directed: Option<&'static 
     // recorder: which request types were issued, and which got a correct answer delivered
     let honest_set: std::collections::BTreeSet<usize> = personas.iter().filter(|(_, (p, _))| matches!(p, Persona::Honest | Persona::HonestSlow | Persona::HonestDuplicating)).map(|(v, _)| *v).collect();
     let issued: Arc<std::sync::Mutex<std::collections::BTreeSet<Vec<u8>>>> = Default::default();
+    let beyond: Arc<std::sync::Mutex<Option<usize>>> = Default::default();
     let answered: Arc<std::sync::Mutex<std::collections::BTreeSet<Vec<u8>>>> = Default::default();
     {
         let issued = issued.clone();
         let answered = answered.clone();
         let hs = honest_set.clone();
         let mut c = net.0.lock().unwrap();
+        let beyond2 = beyond.clone();
+        let true_last = truth.last();
+        let true_id = truth.id();
         c.on_send = Some(Box::new(move |d| {
             if d.from == (Ep::RepairReq, requester) {
                 if let Some(r) = de_repair_req(&d.bytes) {
-                    issued.lock().unwrap().insert(ser(&repair_request_parts(&r).1));
+                    let ty = repair_request_parts(&r).1;
+                    // the requester can only believe in a slice above the true last one if it accepted a
+                    // last-slice claim that the block identifier does not prove
+                    match &ty {
+                        RepairRequestType::SliceRoot(id, s) | RepairRequestType::Shred(id, s, _) if *id == true_id && slice_no(s) > true_last => {
+                            beyond2.lock().unwrap().get_or_insert(slice_no(s));
+                        }
+                        _ => {}
+                    }
+                    issued.lock().unwrap().insert(ser(&ty));
                 }
             }
         }));
@@ -369,8 +389,19 @@ async fn requester_run(ctx: &mut Ctx, rng: &mut SRng, directed: Option<&'static 
     let mut requests_seen = 0u64;
     let mut completed_at: Option<Duration> = None;
     let mut phases: std::collections::BTreeSet<String> = Default::default();
+    // the pool asks again for the same block whenever a further certificate for it arrives: re-trigger the
+    // repair of the block in progress at a few random instants
+    let mut retriggers: Vec<Duration> = (0..rng.random_range(0..4)).map(|_| Duration::from_millis(rng.random_range(20..1800))).collect();
+    retriggers.sort();
     loop {
         tokio::time::sleep(Duration::from_millis(2)).await;
+        while retriggers.first().is_some_and(|t| start.elapsed() >= *t) {
+            retriggers.remove(0);
+            if completed_at.is_none() {
+                let _ = rtx.send(truth.id()).await;
+                ctx.count("repair-retriggered-while-in-progress");
+            }
+        }
         // harness personas react to what they received
         for (&v, e) in &harness_eps {
             while let Some(raw) = e.try_receive_raw() {
@@ -502,6 +533,13 @@ async fn requester_run(ctx: &mut Ctx, rng: &mut SRng, directed: Option<&'static 
         if *h != truth.blk.hash {
             ctx.violation("C14 repair announced a block whose hash differs from the requested identifier".to_string(), format!("{} vs {}", hex(&h[..6]), hex(&truth.blk.hash[..6])), wit(json!(null)));
         }
+    }
+    if let Some(sl) = *beyond.lock().unwrap() {
+        ctx.violation(
+            format!("C14 requester asks for a slice beyond the block's last slice (accepted an unproven slice count) hostile-mode={}", if hostile_sent.is_empty() { "none" } else { run_mode }),
+            format!("requested slice {sl}, the block has {} slice(s)", truth.last() + 1),
+            wit(json!(null)),
+        );
     }
     if block_events.len() > 1 {
         ctx.violation("C14 repaired block announced more than once".to_string(), format!("{}", block_events.len()), wit(json!(null)));
